@@ -20,7 +20,7 @@ CLAUSES = {
     "error-class": (("C02",), "the outcome class (group / unroutable error) is the reference one"),
     "literal": (("C05",), "returned labels have the literal's exact value AND type"),
     "ast": (("C02", "C05"), "parse_source builds the AST the reference parser builds (values and types)"),
-    "bucket": (("C12", "C03", "C10"), "the group inside the selected return statement is the one the published scheme gives"),
+    "bucket": (("C12", "C03", "C10", "C15", "C09"), "the group inside the selected return statement is the one the published scheme gives"),
     "irrelevance": (("C09",), "extra keyword arguments and argument order do not change the outcome"),
     "module": (("C14",), "generate_code text (both layouts) behaves like the evaluator"),
     "inert": (("C13",), "nothing but the evaluation skeleton runs (sentinel builtin never invoked)"),
@@ -75,7 +75,7 @@ def link_pipeline(ctx):
         f3 = [f for r in r3s for f in r["failures"]]
         out.append(_bounded("bounded:pipeline/codegen==D(ast)", "pyab_experiment.codegen.python.python_generator:PythonCodeGen.generate",
                             "translation validation: the Python AST of the real generator's output (both layouts) equals D(spec AST) on generated programs",
-                            ("C02", "C03", "C05", "C09", "C10", "C12", "C13", "C14", "C01"), f3, {"evaluations": sum(r["evaluations"] for r in r3s), "bound": "%d x (%s)" % (chunks, r3s[0]["bound"])}))
+                            ("C02", "C03", "C05", "C07", "C09", "C10", "C12", "C13", "C14", "C01"), f3, {"evaluations": sum(r["evaluations"] for r in r3s), "bound": "%d x (%s)" % (chunks, r3s[0]["bound"])}))
     except Exception as e:   # noqa
         out.append(Obl("bounded:pipeline/codegen-run", "pipeline", "bounded", "translation validation runs", status=ERROR, backend="native-bounded", bounded=True, detail=repr(e)[-800:], props=("C02", "C14")))
     try:
